@@ -245,7 +245,7 @@ func cmdCheck(args []string) int {
 	}
 	dir, _ := os.MkdirTemp("", "vcgo")
 	defer os.RemoveAll(dir)
-	so := SolveOpts{Dir: dir, Stage1: 4 * time.Second, Stage2: 12 * time.Second}
+	so := SolveOpts{Dir: dir, Stage1: 4 * time.Second, Stage2: 20 * time.Second}
 	if *tier == "thorough" {
 		so.All = true
 		so.Stage2 = 60 * time.Second
